@@ -663,5 +663,5 @@ end Raft
 #print axioms Raft.Node.role_step
 #print axioms Raft.C01Sys.inv_reachable
 #print axioms Raft.C01Sys.election_safety_sys_partial
-#print axioms Raft.C01Sys.election_safety_ever_partial
+#print axioms Raft.C01Sys.election_safety_ever_partial -- also C16
 #print axioms Raft.C01Sys.leader_backed_partial
